@@ -119,8 +119,20 @@ def bits_of_f(x):
     return struct.unpack("!Q", struct.pack("!d", x))[0]
 
 
-def to_py(vs):
+def to_py(vs, memo=None):
+    """["sh", id, vs]: every occurrence with the same id is ONE python object (pass one memo dict per call)"""
     k = vs[0]
+    if k == "sh":
+        if memo is None:
+            return to_py(vs[2])
+        if vs[1] not in memo:
+            memo[vs[1]] = to_py(vs[2], memo)
+        return memo[vs[1]]
+    if memo is not None and k in ("l", "T", "s", "fs"):
+        seq = [to_py(x, memo) for x in vs[1]]
+        return {"l": list, "T": tuple, "s": set, "fs": frozenset}[k](seq)
+    if memo is not None and k == "d":
+        return {to_py(a, memo): to_py(b, memo) for a, b in vs[1]}
     if k == "i":
         return vs[1]
     if k == "f":
@@ -180,7 +192,17 @@ def canon(o, _stack=()):
 
 
 def canon_vs(vs):
-    return canon(to_py(vs))
+    return canon(to_py(vs))          # sharing marks are dropped: the tree value
+
+
+def has_sharing(vs):
+    if vs[0] == "sh":
+        return True
+    if vs[0] in ("l", "T", "s", "fs"):
+        return any(has_sharing(x) for x in vs[1])
+    if vs[0] == "d":
+        return any(has_sharing(a) or has_sharing(b) for a, b in vs[1])
+    return False
 
 
 def coq_int(n):
@@ -256,27 +278,42 @@ def int_ws(n):
     return ["wi", "NEG", -n, n]
 
 
-def slice_vs(vs):
-    """value spec -> wire spec as the honest sender would emit it (no VOCAB, no sharing)"""
+def str_ws(payload, raw, voc):
+    """STRING token, or VOCAB token (header = index) when the bytes are a word of the connection's vocabulary"""
+    if voc and raw in voc:
+        return ["ws", True, voc.index(raw), payload]
+    return ["ws", False, len(raw), payload]
+
+
+def slice_vs(vs, voc=None, seen=None):
+    """value spec -> wire spec as the honest sender emits it on a connection whose vocabulary is voc (list of words);
+    with seen (a set), an object marked ["sh", id, ..] that was already sent in this call travels as a reference.
+    Containers are walked in list order: shared objects must only be placed where that is the real slicing order."""
     k = vs[0]
+    if k == "sh":
+        if seen is not None and vs[1] in seen:
+            return ["wr", canon_vs(vs[2]), None]
+        if seen is not None:
+            seen.add(vs[1])
+        return slice_vs(vs[2], voc, seen)
     if k == "i":
         return int_ws(vs[1])
     if k == "f":
         return ["wf", vs[1]]
     if k == "b":
-        return ["ws", False, len(vs[1]), vs[1]]
+        return str_ws(vs[1], bytes(vs[1]), voc)
     if k == "t":
-        return ["wo", "unicode", [["ws", False, len(to_py(vs).encode("utf-8")), vs[1]]]]   # payload = code points
+        return ["wo", "unicode", [str_ws(vs[1], to_py(vs).encode("utf-8"), voc)]]   # payload = code points
     if k == "B":
         return ["wo", "boolean", [["wi", "INT", 1 if vs[1] else 0, 1 if vs[1] else 0]]]
     if k == "N":
         return ["wo", "none", []]
     if k in ("l", "T", "s", "fs"):
-        return ["wo", {"l": "list", "T": "tuple", "s": "set", "fs": "immutable-set"}[k], [slice_vs(x) for x in vs[1]]]
+        return ["wo", {"l": "list", "T": "tuple", "s": "set", "fs": "immutable-set"}[k], [slice_vs(x, voc, seen) for x in vs[1]]]
     if k == "d":
         kids = []
         for a, b in vs[1]:
-            kids += [slice_vs(a), slice_vs(b)]
+            kids += [slice_vs(a, voc, seen), slice_vs(b, voc, seen)]
         return ["wo", "dict", kids]
     raise ValueError(vs)
 
@@ -428,17 +465,39 @@ def outcome_of(res):
     return ("exc", "%s: %s" % (r.type, str(r.value)[:200]))
 
 
+def vocab_broker_pair(vocab_index):
+    """a loopback Broker pair with the parameters a real negotiation hands to both Brokers: the initial vocab table"""
+    from foolscap.test.common import Loopback
+    from foolscap import broker
+    from foolscap.referenceable import TubRef
+    params = {"initial-vocab-table-index": vocab_index} if vocab_index else {}
+    tb = broker.Broker(TubRef("targetBroker"), params=dict(params))
+    cb = broker.Broker(TubRef("callingBroker"), params=dict(params))
+    t1 = Loopback(); t1.peer = cb; t1.protocol = tb; tb.transport = t1
+    t2 = Loopback(); t2.peer = tb; t2.protocol = cb; cb.transport = t2
+    tb.connectionMade(); cb.connectionMade()
+    if vocab_index:
+        assert cb.outgoingVocabulary and tb.incomingVocabulary, "vocab table was not populated"
+    return tb, cb
+
+
+def vocab_words(vocab_index):
+    from foolscap import vocab
+    return list(vocab.INITIAL_VOCAB_TABLES[vocab_index])
+
+
 class World:
     """a Broker pair, a Target implementing a fresh RemoteInterface with one method `m`"""
 
-    def __init__(self, argnames, cons, resp=None, result=None, shared_iface=True):
+    def __init__(self, argnames, cons, resp=None, result=None, shared_iface=True, vocab=0):
         E.reset_clock()
+        self.vocab = vocab
         self.iface = make_interface({"m": (argnames, cons, resp)})
         self.ms = self.iface["m"]
         implementer(self.iface)(type("T", (Target,), {}))
         cls = implementer(self.iface)(type("T", (Target,), {}))
         self.target = cls(["m"], {"m": result})
-        self.tb, self.cb = E.broker_pair()
+        self.tb, self.cb = vocab_broker_pair(vocab)
         self.recv_errors = []
         for b in (self.tb, self.cb):
             b.reportReceiveError = self._spy(b.reportReceiveError)
@@ -494,10 +553,10 @@ def is_remote_failure(r):
     return isinstance(r, CopiedFailure)
 
 
-def answer_trial(resp_cs, ws, refs_first=None):
+def answer_trial(resp_cs, ws, refs_first=None, vocab=0):
     """callRemote('m') under result constraint resp_cs, the target's real answer is suppressed and a hand-built
     `answer` sequence carrying wire tree ws is delivered instead.  -> (outcome, alive)"""
-    w = World([], [], build(resp_cs))
+    w = World([], [], build(resp_cs), vocab=vocab)
     real_write = w.tb.transport.write
     w.tb.transport.write = lambda data: None
     res = []
@@ -515,12 +574,12 @@ def answer_trial(resp_cs, ws, refs_first=None):
     return res, w
 
 
-def call_trial(argnames, cons, pos_ws, kw_ws, numargs=None, prelude=None):
+def call_trial(argnames, cons, pos_ws, kw_ws, numargs=None, prelude=None, vocab=0):
     """hand-built `call` for method m(argnames=cons): positional wire trees pos_ws, keyword wire trees kw_ws
     [(name, ws)..].  The caller side has a PendingRequest for reqID 1 so the Error/Answer coming back is observed.
     prelude: list of value specs sent first inside the arguments scope?  (not possible: see smuggle_trial)"""
     from foolscap import call as callmod
-    w = World(argnames, cons, None)
+    w = World(argnames, cons, None, vocab=vocab)
     req = callmod.PendingRequest(1, None, None, "m")
     w.cb.addRequest(req)
     res = []
@@ -541,11 +600,14 @@ def call_trial(argnames, cons, pos_ws, kw_ws, numargs=None, prelude=None):
 
 
 # ------------------------------------------------------------------ generators (every choice from rng)
-LEAVES = [["py", "int"], ["int", -1], ["int", 4], ["int", None], ["int", 8], ["number", None], ["py", "float"],
+VOCAB1 = [b"none", b"boolean", b"reference", b"dict", b"list", b"tuple", b"set", b"immutable-set", b"unicode", b"set-vocab",
+          b"add-vocab", b"call", b"arguments", b"answer", b"error", b"my-reference", b"your-reference", b"their-reference",
+          b"copyable", b"instance", b"module", b"class", b"method", b"function", b"attrdict"]      # checked against vocab.py at run time
+LEAVES = [["bytes", 20, 0], ["bytes", 10, 0], ["bytes", 8, 4], ["text", 6, 0], ["py", "int"], ["int", -1], ["int", 4], ["int", None], ["int", 8], ["number", None], ["py", "float"],
           ["number", 4], ["bytes", None, 0], ["bytes", 3, 1], ["py", "bytes"], ["text", None, 0], ["text", 3, 1],
           ["py", "str"], ["py", "bool"], ["bool", True], ["bool", False], ["none"], ["py", "none"], ["any"]]
-HASHABLE_LEAVES = [["py", "int"], ["int", -1], ["bytes", 3, 0], ["py", "str"], ["text", 2, 0], ["py", "bool"]]
-TOKEN_LEAVES = [["py", "int"], ["int", -1], ["int", 4], ["number", None], ["bytes", 3, 1], ["py", "bytes"], ["py", "float"]]
+HASHABLE_LEAVES = [["bytes", 20, 0], ["py", "int"], ["int", -1], ["bytes", 3, 0], ["py", "str"], ["text", 2, 0], ["py", "bool"]]
+TOKEN_LEAVES = [["bytes", 20, 0], ["bytes", 10, 0], ["py", "int"], ["int", -1], ["int", 4], ["number", None], ["bytes", 3, 1], ["py", "bytes"], ["py", "float"]]
 
 
 def gen_cs(rng, depth, choice=True, opener_choice=True, hashable=False):
@@ -636,6 +698,8 @@ def gen_any(rng, depth, hashable=False):
     k = rng.choice(ks)
     if k == "i":
         return ["i", rng.choice([0, 5, -7, 2 ** 31, -2 ** 31 - 1, 2 ** 64] + ([2 ** 8000 - 1] if rng.random() < 0.1 else []))]
+    if k in ("b", "t") and rng.random() < 0.25:
+        return [k, list(rng.choice(VOCAB1))]
     if k == "b":
         return ["b", [rng.randint(0, 255) for _ in range(rng.randint(0, 4))]]
     if k == "t":
@@ -676,6 +740,10 @@ def gen_value(cs, rng):
         if rng.random() < 0.4:
             return ["f", bits_of_f(rng.choice(FLOATS))]
         return ["i", gen_int(rng, cs[1])]
+    if k in ("bytes", "text") and rng.random() < (0.4 if k == "bytes" else 0.2):
+        fit = [w for w in VOCAB1 if (cs[1] is None or len(w) <= cs[1]) and len(w) >= cs[2]]
+        if fit:                                      # a word of the negotiated vocabulary: travels as a VOCAB token
+            return [k[0], list(rng.choice(fit))]
     if k == "bytes":
         return ["b", [rng.randint(0, 255) for _ in range(pick_len(rng, cs[1], cs[2]))]]
     if k == "text":
@@ -859,3 +927,167 @@ def py_args_ok(argspec, args, kwargs):
     if not all(py_satisfies(by[n], v) for n, v in bound.items()):
         return False
     return all(opt or n in bound for n, _, opt in argspec)
+
+
+# ------------------------------------------------------------------ shared (identical) container objects in one call
+CONTAINER_KINDS = ["list", "tuple", "dict", "set-any", "set-mutable", "choice", "any", "opt"]
+
+
+def gen_container_cs(rng, kind):
+    """a constraint that accepts some list / tuple / dict / mutable set (the objects whose repeats travel as references)"""
+    leaf = lambda: list(rng.choice([["py", "int"], ["int", -1], ["bytes", 10, 0], ["py", "str"], ["py", "bool"], ["any"]]))
+    hleaf = lambda: list(rng.choice(HASHABLE_LEAVES))
+    if kind == "list":
+        return ["list", leaf(), rng.choice([None, 3]), rng.choice([0, 1])]
+    if kind == "tuple":
+        return ["tuple", [leaf() for _ in range(rng.randint(1, 3))]]
+    if kind == "dict":
+        return ["dict", hleaf(), leaf(), rng.choice([None, 2])]
+    if kind == "set-any":
+        return ["set", hleaf(), rng.choice([None, 3]), None]
+    if kind == "set-mutable":
+        return ["set", hleaf(), rng.choice([None, 3]), True]
+    if kind == "choice":
+        return ["choice", [gen_container_cs(rng, rng.choice(["list", "tuple", "dict", "set-any", "set-mutable"])), ["py", "int"]]]
+    if kind == "any":
+        return ["any"]
+    if kind == "opt":
+        return ["list", ["opt", ["py", "int"]], None, 0]
+    raise ValueError(kind)
+
+
+def gen_refable_value(cs, rng):
+    """a conforming value of cs that is a list / tuple / dict / mutable set"""
+    for _ in range(20):
+        v = gen_value(cs, rng) if norm_cs(cs)[0] not in ("any",) else rng.choice(
+            [["l", [["i", 1], ["i", 2]]], ["T", [["i", 1]]], ["d", [[["i", 1], ["i", 2]]]], ["s", [["i", 1]]]])
+        if v[0] in ("l", "T", "d", "s") and not (v[0] == "T" and not v[1]):
+            return v
+    return None
+
+
+def gen_shared_call(rng):
+    """-> (argspec, args_vs, kwargs_vs): ONE container object occurs twice in the call, the second occurrence in a slot
+    governed by a container constraint of every kind (so the OPEN reference meets that constraint's checkOpentype)"""
+    kind = rng.choice(CONTAINER_KINDS)
+    x = gen_container_cs(rng, kind)
+    v = gen_refable_value(x, rng)
+    if v is None:
+        return None
+    sh = ["sh", 1, v]
+    shape = rng.choice(["two-args", "arg-kwarg", "list-of", "tuple-of", "dict-then-arg", "three"])
+    if shape == "two-args":
+        return [("a", x, False), ("b", x, False)], [sh, sh], []
+    if shape == "arg-kwarg":
+        return [("a", x, False), ("b", x, True)], [sh], [["b", sh]]
+    if shape == "list-of":
+        return [("a", ["list", x, rng.choice([None, 2]), 0], False)], [["l", [sh, sh]]], []
+    if shape == "tuple-of":
+        return [("a", ["pytuple", [x, ["py", "int"], x]], False)], [["T", [sh, ["i", 5], sh]]], []
+    if shape == "dict-then-arg":
+        return [("a", ["dict", ["py", "int"], x, None], False), ("b", x, False)], [["d", [[["i", 1], sh]]], sh], []
+    return [("a", x, False), ("b", ["any"], False), ("c", ["list", x, None, 0], False)], [sh, sh, ["l", [sh]]], []
+
+
+# ------------------------------------------------------------------ reference semantics of the TOKEN-LEVEL enforcement
+def _taster(cs):
+    """typebyte name -> size limit (None = unlimited), as documented for each constraint class"""
+    k = cs[0]
+    if k in ("any", "opt", "choice"):
+        return {"STRING": None, "LIST": None, "INT": None, "NEG": None, "LONGINT": 1000, "LONGNEG": 1000, "VOCAB": None,
+                "FLOAT": None, "OPEN": None}
+    if k in ("int", "number"):
+        t = {"INT": None, "NEG": None}
+        if cs[1] != -1:
+            t["LONGINT"] = cs[1]
+            t["LONGNEG"] = cs[1]
+        if k == "number":
+            t["FLOAT"] = None
+        return t
+    if k == "bytes":
+        return {"STRING": cs[1], "VOCAB": None}
+    return {"OPEN": None}
+
+
+def py_taste(cs, tb, size):
+    if cs[0] == "choice":
+        return "ok" if any(py_taste(a, tb, size) == "ok" for a in cs[1]) else "viol"
+    t = _taster(cs)
+    if tb not in t:
+        return "abort" if cs[0] in ("text", "bool", "none") else "viol"
+    return "viol" if (t[tb] is not None and size > t[tb]) else "ok"
+
+
+_OPENTYPES = {"text": ["unicode"], "bool": ["boolean"], "none": ["none"], "list": ["list"], "tuple": ["tuple"], "dict": ["dict"],
+              "set": ["set", "immutable-set"], "int": [], "number": [], "bytes": []}
+_CHILD = {"list": "list", "tuple": "tuple", "dict": "dict", "set": "set", "immutable-set": "set", "unicode": "text", "boolean": "bool"}
+
+
+def py_recv(cs, ws):
+    """what the documented token-level checks do with wire tree ws in a slot governed by constraint cs (None = no
+    constraint): "ok" (delivered) | "viol" | "abort".  Written from the documentation of the constraint classes and
+    unslicers; it does not import foolscap."""
+    if cs is not None:
+        cs = norm_cs(cs)
+    k = ws[0]
+    if k in ("wi", "wf", "ws"):
+        if cs is None:
+            return "ok"
+        tb = ws[1] if k == "wi" else "FLOAT" if k == "wf" else ("VOCAB" if ws[1] else "STRING")
+        return py_taste(cs, tb, ws[2] if k != "wf" else 0)
+    if cs is not None:
+        t = py_taste(cs, "OPEN", 0)
+        if t != "ok":
+            return t
+    if k == "wr":
+        return "ok" if cs is None or py_satisfies(cs, to_py(ws[1])) else "viol"
+    if k == "wp":
+        return "ok" if cs is None or _accepts_placeholder(cs) else "viol"
+    ot, kids = ws[1], ws[2]
+    if cs is not None and cs[0] not in ("any", "opt", "choice") and ot not in _OPENTYPES[cs[0]]:
+        return "viol"
+    if ot == "none":
+        return "ok" if not kids else "abort"
+    if cs is not None and cs[0] != "any" and cs[0] != _CHILD[ot]:
+        return "abort"                                   # setConstraint's isinstance assertion
+    free = cs is None or cs[0] == "any"
+    if ot == "unicode":
+        if not kids:
+            return "ok"
+        if kids[0][0] != "ws":
+            return "abort"
+        if not free and not kids[0][1] and cs[1] is not None and kids[0][2] > 6 * cs[1]:
+            return "viol"
+        return "ok" if len(kids) == 1 else "abort"
+    if ot == "boolean":
+        if not kids:
+            return "ok"
+        if kids[0][0] != "wi" or kids[0][1] != "INT":
+            return "abort"
+        if not free and cs[1] is not None and bool(kids[0][3]) != cs[1]:
+            return "viol"
+        return "ok" if len(kids) == 1 else "abort"
+    for i, kid in enumerate(kids):
+        if free:
+            sub = None
+        elif ot == "list" or ot in ("set", "immutable-set"):
+            if cs[2] is not None and i >= cs[2]:
+                return "viol"
+            sub = cs[1]
+        elif ot == "tuple":
+            if i >= len(cs[1]):
+                return "viol"
+            sub = cs[1][i]
+        else:
+            if cs[3] is not None and i // 2 >= cs[3]:
+                return "viol"
+            sub = cs[1] if i % 2 == 0 else cs[2]
+        r = py_recv(sub, kid)
+        if r != "ok":
+            return r
+    return "ok"
+
+
+def _accepts_placeholder(cs):
+    cs = norm_cs(cs)
+    return cs[0] in ("any", "opt") or (cs[0] == "choice" and any(_accepts_placeholder(a) for a in cs[1]))
